@@ -189,7 +189,7 @@ def main():
     # a rule that says it could not find / read / establish the construct it reasons about gives no verdict (DESIGN §14.5)
     NO_VERDICT = ("cannot establish", "cannot find", "cannot read", " not found", "not recognised", "unrecognised", "not understood", "not extracted")
     for f in uniq.values():
-        if f.rule not in ("CORPUS.BUILD", "CHECKER-ANCHOR") and not f.rule.endswith(".BUILD") and any(x in f.what for x in NO_VERDICT) \
+        if f.rule not in ("CORPUS.BUILD", "CHECKER-ANCHOR") and not f.rule.endswith(".BUILD") and not f.rule.endswith(".WIT") and any(x in f.what for x in NO_VERDICT) \
                 and "keys behind a longer run" not in f.what:
             f.undecided = True
     # generated code that delegates to library helpers the readers do not model (a template restructured around run-time
